@@ -318,3 +318,15 @@ class RestoreEntity(Contract):
 
 
 CONTRACTS = [RestoreHolder(), RestoreEntity()]
+
+
+def _c19_probes(self, case):
+    return [{"callee": self.name, "script": "import sys; sys.path.insert(0, '/verif/native')\nimport c19_replay\noutcome = c19_replay.run(call['scenario'])\n",
+             "scenario": sc} for sc in ("trailing-empty-group", "round-trip")]
+
+
+for _c in CONTRACTS:
+    type(_c).probes = _c19_probes
+    if not hasattr(type(_c), "judge_native"):
+        type(_c).judge_native = RestoreEntity.judge_native
+        type(_c).call_descriptor = RestoreEntity.call_descriptor
